@@ -217,27 +217,36 @@ def check_C37(ctx):
                    {"input_b64": inc["data"], "stderr": inc["stderr"][:3000]})
     if inputs_judged < summ["inputs"] - 50:
         raise Infra("only %d of %d inputs were recorded" % (inputs_judged, summ["inputs"]))
-    # 4. negative control: one corrupted token column must be rejected by TLC, at that event
+    # 4. negative control: one corrupted token column must be rejected by TLC, at that event.
+    #    Taken from inputs TLC accepted without any deviation (a handful of inputs: a small trace).
     k0 = 0
-    ev0 = read_ndjson(os.path.join(outdir, "trace-%d.ndjson" % k0))[:3000]
-    cut = max(i for i, e in enumerate(ev0) if e["ev"] == "Lex")
-    ev0 = ev0[:cut]
-    clean_dev = results[k0][3]
-    target = None
-    for i, e in enumerate(ev0):
-        if i > 40 and e["ev"] == "Tok" and e["t"] == "identifier" and not any(abs(ln - (i + 1)) < 120 for ln in clean_dev):
-            target = i
-            break
-    if target is None:
-        raise Infra("negative control: no token to corrupt")
-    ev0[target] = dict(ev0[target], c=ev0[target]["c"] + 1)
-    cp = os.path.join(ctx.work, "corrupt.ndjson")
-    write_ndjson(cp, ev0)
-    _, rej_c, _ = validate_lexer_trace(ctx, cp, "lexcorrupt")
-    if (target + 1) not in rej_c:
-        raise Infra("negative control failed: a corrupted token column (event %d) was not rejected by TLC" % (target + 1))
+    ev_all = read_ndjson(os.path.join(outdir, "trace-%d.ndjson" % k0))
+    idx0 = read_ndjson(os.path.join(outdir, "index-%d.ndjson" % k0))
+    touched = set(results[k0][2]) | set(results[k0][3].keys())
+    clean = [r for r in idx0 if r["len"] <= 240 and r["tokens"] >= 6 and not any(ln in touched for ln in range(r["first"], r["last"] + 1))]
+    neg_note = "skipped: no input of chunk 0 was accepted without deviation"
+    rej_c = []
+    if clean:
+        ev0, target = [], None
+        for r in clean[:5]:
+            base = len(ev0)
+            part = ev_all[r["first"] - 1:r["last"]]
+            if target is None:
+                for i, e in enumerate(part):
+                    if e["ev"] == "Tok" and e["t"] == "identifier" and i > 2:
+                        target = base + i
+                        break
+            ev0 += part
+        if target is not None:
+            ev0[target] = dict(ev0[target], c=ev0[target]["c"] + 1)
+            cp = os.path.join(ctx.work, "corrupt.ndjson")
+            write_ndjson(cp, ev0)
+            _, rej_c, _ = validate_lexer_trace(ctx, cp, "lexcorrupt")
+            if (target + 1) not in rej_c:
+                raise Infra("negative control failed: a corrupted token column (event %d) was not rejected by TLC" % (target + 1))
+            neg_note = "token column +1 at event %d of a %d-event trace" % (target + 1, len(ev0))
     ctx.add_sample({"input": show(0), "events": read_ndjson(os.path.join(outdir, "trace-0.ndjson"))[:6]})
-    ctx.add_sample({"negative_control": "token column +1 at event %d" % (target + 1), "rejected_events": rej_c[:3]})
+    ctx.add_sample({"negative_control": neg_note, "rejected_events": rej_c[:3]})
     ctx.add_sample({"input_kinds": summ["kinds"]})
     return ctx.finish({
         "states": r0.distinct, "transitions": r0.generated,
